@@ -187,6 +187,7 @@ fn frag(a: &Args, o: &mut Obs) {
                     let is_take = matches!(spec, Spec::Take(..));
                     let ops1 = small_ops(m, is_take);
                     o.cell(format!("frag|len{n}|chunks{}|kind{kind}|w{wi}", parts.len().min(4)));
+                    let mut cdg = 0u64;
                     for (i, op1) in ops1.iter().enumerate() {
                         let used = match op1 {
                             ROp::Adv(k) | ROp::CopySlice(k) | ROp::CopyBytes(k) => *k,
@@ -200,8 +201,12 @@ fn frag(a: &Args, o: &mut Obs) {
                         for (j, op2) in ops2.iter().enumerate() {
                             let path = (i + j + wi) % 3;
                             let fin = if (i + j) % 5 == 0 { Final::IntoIter } else { Final::Dismantle };
-                            rd::run_case(o, spec, &[op1.clone(), op2.clone()], path, fin, &case);
+                            let h = rd::run_case(o, spec, &[op1.clone(), op2.clone()], path, fin, &case);
+                            cdg = vharness::rng::fnv_u64(cdg, h);
                         }
+                    }
+                    if a.flag("digest") {
+                        println!("DIGEST frag {n}:{fi}:{kind}:{wi} {cdg:016x}");
                     }
                     if idx % 4001 == shard {
                         o.sample(format!("{case}: tree={} parts={:?} with every pair of ops from {:?}", spec.shape(), parts, ops1));
